@@ -21,5 +21,9 @@ VerifyCalls == {C("verify", "md", <<>>, "sp2", "none"), C("verify", "md", <<"str
                 C("verify", "root", <<>>, "tab", "none")}
 MassiveCalls == {C("output", "md", <<"massive">>, "tab", "none"), C("output", "md", <<"massive">>, "sp2", "w1"),
                  C("mkdir", "md", <<"massive", "extsDup">>, "files", "none")}
-AllCalls == TextCalls \cup EncCalls \cup DryCalls \cup WalkCalls \cup MkdirCalls \cup VerifyCalls \cup MassiveCalls
+\* a name the file system refuses (longer than 255 bytes) below a root: mkdir fails after validation, in the middle of its work
+LongCalls == {C("mkdir", "md", <<"massive">>, "long", "none"), C("mkdir", "md", <<>>, "long", "none"), C("verify", "md", <<>>, "long", "none")}
+\* two documents rejected with a format error, each naming its own row
+FmtCalls == {C("output", "md", <<>>, "fmt1", "none"), C("output", "md", <<"massive">>, "fmt2", "none")}
+AllCalls == LongCalls \cup FmtCalls \cup TextCalls \cup EncCalls \cup DryCalls \cup WalkCalls \cup MkdirCalls \cup VerifyCalls \cup MassiveCalls
 =============================================================================
